@@ -336,6 +336,238 @@ pub fn direct_check(n: usize, ops: &[Op], path: &Path, o: &Obs) -> Vec<String> {
     if twice.as_ref() != Some(&spec) {
         bad.push("reversing twice does not give the original".to_string());
     }
+    // ---- an entry of a path buffer holding several paths
+    {
+        let got: Option<(Vec<AEvent>, Vec<AEvent>)> = catch(AssertUnwindSafe(|| {
+            let mut buf = lyon_path::PathBuffer::new();
+            // a filler path first, so that offsets are not zero
+            {
+                let mut b = buf.builder();
+                b.begin(point(100.0, 100.0));
+                b.line_to(point(101.0, 100.0));
+                b.quadratic_bezier_to(point(102.0, 103.0), point(104.0, 105.0));
+                b.end(true);
+                b.build();
+            }
+            let idx = {
+                let mut b = buf.builder().with_attributes(n);
+                for o in ops {
+                    match o {
+                        Op::Begin(p, a) => {
+                            b.begin(*p, a);
+                        }
+                        Op::Line(p, a) => {
+                            b.line_to(*p, a);
+                        }
+                        Op::Quad(c, p, a) => {
+                            b.quadratic_bezier_to(*c, *p, a);
+                        }
+                        Op::Cubic(c1, c2, p, a) => {
+                            b.cubic_bezier_to(*c1, *c2, *p, a);
+                        }
+                        Op::End(c) => b.end(*c),
+                    }
+                }
+                b.build()
+            };
+            // and one after it
+            {
+                let mut b = buf.builder();
+                b.begin(point(-7.0, -7.0));
+                b.end(false);
+                b.build();
+            }
+            let sl = buf.get(idx);
+            let with_attr: Vec<AEvent> = sl.iter_with_attributes().map(own).collect();
+            let resolved: Vec<AEvent> = sl
+                .id_iter()
+                .map(|e| {
+                    let ep = |id: EndpointId| (sl[id], sl.attributes(id).to_vec());
+                    match e {
+                        IdEvent::Begin { at } => Event::Begin { at: ep(at) },
+                        IdEvent::Line { from, to } => Event::Line { from: ep(from), to: ep(to) },
+                        IdEvent::Quadratic { from, ctrl, to } => Event::Quadratic { from: ep(from), ctrl: sl[ctrl], to: ep(to) },
+                        IdEvent::Cubic { from, ctrl1, ctrl2, to } => Event::Cubic { from: ep(from), ctrl1: sl[ctrl1], ctrl2: sl[ctrl2], to: ep(to) },
+                        IdEvent::End { last, first, close } => Event::End { last: ep(last), first: ep(first), close },
+                    }
+                })
+                .collect();
+            (with_attr, resolved)
+        }));
+        match got {
+            None => bad.push("reading the path back from a PathBuffer panicked".to_string()),
+            Some((a, r)) => {
+                if a != spec {
+                    bad.push("PathBuffer entry: iter_with_attributes differs from the program's events".to_string());
+                }
+                if r != spec {
+                    bad.push("PathBuffer entry: id_iter resolved through the slice differs from the program's events".to_string());
+                }
+            }
+        }
+    }
+    // ---- a command buffer with external storage
+    {
+        let got: Option<(Vec<PathEvent>, Vec<PathEvent>, bool)> = catch(AssertUnwindSafe(|| {
+            let mut endpoints: Vec<Point> = Vec::new();
+            let mut ctrls: Vec<Point> = Vec::new();
+            let mut b = lyon_path::commands::PathCommands::builder();
+            let mut ep = |p: Point, v: &mut Vec<Point>| -> u32 {
+                v.push(p);
+                v.len() as u32 - 1
+            };
+            for o in ops {
+                match o {
+                    Op::Begin(p, _) => {
+                        let i = ep(*p, &mut endpoints);
+                        b.begin(EndpointId(i));
+                    }
+                    Op::Line(p, _) => {
+                        let i = ep(*p, &mut endpoints);
+                        b.line_to(EndpointId(i));
+                    }
+                    Op::Quad(c, p, _) => {
+                        let ci = ep(*c, &mut ctrls);
+                        let i = ep(*p, &mut endpoints);
+                        b.quadratic_bezier_to(ControlPointId(ci), EndpointId(i));
+                    }
+                    Op::Cubic(c1, c2, p, _) => {
+                        let c1i = ep(*c1, &mut ctrls);
+                        let c2i = ep(*c2, &mut ctrls);
+                        let i = ep(*p, &mut endpoints);
+                        b.cubic_bezier_to(ControlPointId(c1i), ControlPointId(c2i), EndpointId(i));
+                    }
+                    Op::End(c) => {
+                        b.end(*c);
+                    }
+                }
+            }
+            let cmds = b.build();
+            let via_events: Vec<PathEvent> = cmds
+                .events(&endpoints, &ctrls)
+                .map(|e| match e {
+                    Event::Begin { at } => Event::Begin { at: *at },
+                    Event::Line { from, to } => Event::Line { from: *from, to: *to },
+                    Event::Quadratic { from, ctrl, to } => Event::Quadratic { from: *from, ctrl: *ctrl, to: *to },
+                    Event::Cubic { from, ctrl1, ctrl2, to } => Event::Cubic { from: *from, ctrl1: *ctrl1, ctrl2: *ctrl2, to: *to },
+                    Event::End { last, first, close } => Event::End { last: *last, first: *first, close },
+                })
+                .collect();
+            let res = |e: IdEvent| -> PathEvent {
+                match e {
+                    IdEvent::Begin { at } => Event::Begin { at: endpoints[at.to_usize()] },
+                    IdEvent::Line { from, to } => Event::Line { from: endpoints[from.to_usize()], to: endpoints[to.to_usize()] },
+                    IdEvent::Quadratic { from, ctrl, to } => Event::Quadratic { from: endpoints[from.to_usize()], ctrl: ctrls[ctrl.to_usize()], to: endpoints[to.to_usize()] },
+                    IdEvent::Cubic { from, ctrl1, ctrl2, to } => Event::Cubic { from: endpoints[from.to_usize()], ctrl1: ctrls[ctrl1.to_usize()], ctrl2: ctrls[ctrl2.to_usize()], to: endpoints[to.to_usize()] },
+                    IdEvent::End { last, first, close } => Event::End { last: endpoints[last.to_usize()], first: endpoints[first.to_usize()], close },
+                }
+            };
+            let via_ids: Vec<PathEvent> = cmds.iter().map(res).collect();
+            // random access by event id agrees with iteration
+            let mut random_access_ok = true;
+            let mut id = if via_ids.is_empty() { None } else { Some(lyon_path::EventId(0)) };
+            let mut k = 0;
+            while let Some(i) = id {
+                if k >= via_ids.len() || res(cmds.event(i)) != via_ids[k] {
+                    random_access_ok = false;
+                    break;
+                }
+                k += 1;
+                id = cmds.next_event_id_in_path(i);
+            }
+            if k != via_ids.len() {
+                random_access_ok = false;
+            }
+            (via_events, via_ids, random_access_ok)
+        }));
+        match got {
+            None => bad.push("reading the path back from a command buffer panicked".to_string()),
+            Some((ev, ids, ra)) => {
+                if ev != spec_pos {
+                    bad.push("PathCommands::events differs from the program's events".to_string());
+                }
+                if ids != spec_pos {
+                    bad.push("PathCommands id events resolved through the external storage differ from the program's events".to_string());
+                }
+                if !ra {
+                    bad.push("PathCommands random access by event id disagrees with iteration".to_string());
+                }
+            }
+        }
+    }
+    // ---- polygon views of a polygonal single sub-path (and of the empty program)
+    let poly: Option<(Vec<Point>, bool)> = {
+        let mut pts = Vec::new();
+        let mut ok = true;
+        let mut closed = false;
+        let mut ends = 0;
+        for o in ops {
+            match o {
+                Op::Begin(p, _) | Op::Line(p, _) => pts.push(*p),
+                Op::End(c) => {
+                    closed = *c;
+                    ends += 1;
+                }
+                _ => ok = false,
+            }
+        }
+        if ok && ends <= 1 { Some((pts, closed)) } else { None }
+    };
+    if let Some((pts, closed)) = poly {
+        let got = catch(AssertUnwindSafe(|| {
+            let pg = lyon_path::Polygon { points: &pts[..], closed };
+            let via_path_events: Vec<PathEvent> = pg.path_events().collect();
+            let via_iter: Vec<PathEvent> = pg
+                .iter()
+                .map(|e| match e {
+                    Event::Begin { at } => Event::Begin { at: *at },
+                    Event::Line { from, to } => Event::Line { from: *from, to: *to },
+                    Event::End { last, first, close } => Event::End { last: *last, first: *first, close },
+                    _ => unreachable!(),
+                })
+                .collect();
+            let via_ids: Vec<PathEvent> = pg
+                .id_iter()
+                .map(|e| match e {
+                    IdEvent::Begin { at } => Event::Begin { at: pg[at] },
+                    IdEvent::Line { from, to } => Event::Line { from: pg[from], to: pg[to] },
+                    IdEvent::End { last, first, close } => Event::End { last: pg[last], first: pg[first], close },
+                    _ => unreachable!(),
+                })
+                .collect();
+            (via_path_events, via_iter, via_ids)
+        }));
+        match got {
+            None => bad.push("iterating a Polygon panicked".to_string()),
+            Some((pe, it, ids)) => {
+                if pe != spec_pos {
+                    bad.push("Polygon::path_events differs from the program's events".to_string());
+                }
+                if it != spec_pos {
+                    bad.push("Polygon::iter differs from the program's events".to_string());
+                }
+                if ids != spec_pos {
+                    bad.push("Polygon::id_iter resolved through the polygon differs from the program's events".to_string());
+                }
+            }
+        }
+        // random access: event(i) is the i-th event of the iteration
+        for (i, want) in spec_pos.iter().enumerate() {
+            let got = catch(AssertUnwindSafe(|| {
+                let pg = lyon_path::Polygon { points: &pts[..], closed };
+                match pg.event(lyon_path::EventId(i as u32)) {
+                    Event::Begin { at } => Event::Begin { at: *at },
+                    Event::Line { from, to } => Event::Line { from: *from, to: *to },
+                    Event::End { last, first, close } => Event::End { last: *last, first: *first, close },
+                    _ => unreachable!(),
+                }
+            }));
+            if got.as_ref() != Some(want) {
+                bad.push("Polygon::event(id) disagrees with the id-th event of the iteration".to_string());
+                break;
+            }
+        }
+    }
     // n = 0: the attribute-less builder stores the same path
     if n == 0 {
         let q = catch(AssertUnwindSafe(|| {
@@ -537,5 +769,77 @@ pub fn main(args: &Args) -> std::io::Result<()> {
         id += 1;
     }
     w.finish()?;
+    // polygon views: every point list up to 4 points on a 2x2 lattice, longer random ones; closed and open
+    {
+        let mut pw = ShardWriter::new(&args.out, "c14poly_cases", 4, HEADER, "poly_bad_cases");
+        pw.disabled = args.direct_only();
+        let ev = |e: PathEvent| -> String {
+            match e {
+                Event::Begin { at } => format!("(EvBegin {})", gp(at)),
+                Event::Line { from, to } => format!("(EvLine {} {})", gp(from), gp(to)),
+                Event::End { last, first, close } => format!("(EvEnd {} {} {})", gp(last), gp(first), gbool(close)),
+                _ => unreachable!(),
+            }
+        };
+        let mut lists: Vec<Vec<Point>> = vec![vec![]];
+        let lattice = [point(0.0, 0.0), point(1.0, 0.0), point(0.0, 1.0), point(1.0, 1.0)];
+        for len in 1..=4usize {
+            for code in 0..4usize.pow(len as u32) {
+                let mut c = code;
+                lists.push((0..len).map(|_| { let p = lattice[c % 4]; c /= 4; p }).collect());
+            }
+        }
+        for _ in 0..(if args.thorough() { 2000 } else { 300 }) {
+            let len = 5 + rng.below(20) as usize;
+            lists.push((0..len).map(|_| point(rng.range(-9, 9) as f32, rng.range(-9, 9) as f32)).collect());
+        }
+        let mut pid = 0usize;
+        for pts in &lists {
+            for closed in [false, true] {
+                st.inc("polygon_evaluations");
+                let r = catch(AssertUnwindSafe(|| {
+                    let pg = lyon_path::Polygon { points: &pts[..], closed };
+                    let res = |e: IdEvent| -> PathEvent {
+                        match e {
+                            IdEvent::Begin { at } => Event::Begin { at: pg[at] },
+                            IdEvent::Line { from, to } => Event::Line { from: pg[from], to: pg[to] },
+                            IdEvent::End { last, first, close } => Event::End { last: pg[last], first: pg[first], close },
+                            _ => unreachable!(),
+                        }
+                    };
+                    let own = |e: Event<&Point, ()>| -> PathEvent {
+                        match e {
+                            Event::Begin { at } => Event::Begin { at: *at },
+                            Event::Line { from, to } => Event::Line { from: *from, to: *to },
+                            Event::End { last, first, close } => Event::End { last: *last, first: *first, close },
+                            _ => unreachable!(),
+                        }
+                    };
+                    let it: Vec<PathEvent> = pg.path_events().collect();
+                    let ids: Vec<PathEvent> = pg.id_iter().map(res).collect();
+                    let ra: Vec<PathEvent> = if pts.is_empty() { vec![] } else { (0..=pts.len()).map(|i| own(pg.event(lyon_path::EventId(i as u32)))).collect() };
+                    (it, ids, ra)
+                }));
+                let text = format!("polygon {:?} closed {}", pts, closed);
+                match r {
+                    None => st.fail(jobj(&[("case", format!("{}", pid)), ("program", jstr(&text)), ("what", jstr("a Polygon view panicked"))])),
+                    Some((it, ids, ra)) => {
+                        writeln!(index, "poly{}\t{}", pid, text)?;
+                        pw.push(format!(
+                            "(mkPoly {} {} {} {} {} {})",
+                            pid,
+                            glist(pts.iter().map(|p| gp(*p))),
+                            gbool(closed),
+                            glist(it.into_iter().map(&ev)),
+                            glist(ids.into_iter().map(&ev)),
+                            glist(ra.into_iter().map(&ev))
+                        ));
+                    }
+                }
+                pid += 1;
+            }
+        }
+        pw.finish()?;
+    }
     st.write(&args.out.join("c14_stats.json"))
 }
